@@ -80,6 +80,17 @@ func validProof(keys [][]byte, data *didtypes.DIDDocument, seq uint64, sig []byt
 	return false
 }
 
+// otherSequence: the proof does not verify over the stored sequence; does it verify over a nearby or truncated one?
+func otherSequence(keys [][]byte, data *didtypes.DIDDocument, stored uint64, sig []byte) (uint64, bool) {
+	cands := []uint64{0, 1, stored - 1, stored + 1, stored & 0xff, stored & 0xffff, stored & 0xffffffff, stored >> 8, stored >> 32, uint64(uint32(stored)) << 32}
+	for _, c := range cands {
+		if c != stored && validProof(keys, data, c, sig) {
+			return c, true
+		}
+	}
+	return 0, false
+}
+
 func (m *didMonitor) AfterTx(x *Exec, tx *TxInfo, result string) {
 	ok := strings.HasPrefix(result, "R ok")
 	if !ok {
@@ -141,6 +152,9 @@ func (m *didMonitor) AfterTx(x *Exec, tx *TxInfo, result string) {
 			if !validProof(authKeys(before.Document, msg.VerificationMethodId), msg.Document, before.Sequence, msg.Signature) {
 				x.Flag("C03-update-proof", "update accepted without a valid proof (current authentication key, new content, current sequence)")
 				x.Flag("C11-foreign-proof", "the entry under "+did+" was replaced on a proof that no key registered under that DID made: the identifier is occupied with someone else's document")
+				if s2, ok := otherSequence(authKeys(before.Document, msg.VerificationMethodId), msg.Document, before.Sequence, msg.Signature); ok {
+					x.Flag("C04-proof-over-other-sequence", fmt.Sprintf("an update of %s was accepted at sequence %d on a proof made over sequence %d", did, before.Sequence, s2))
+				}
 			}
 			cur[did] = didtypes.NewDIDDocumentWithSeq(msg.Document, before.Sequence+1)
 		case "did.Deactivate":
@@ -148,6 +162,9 @@ func (m *didMonitor) AfterTx(x *Exec, tx *TxInfo, result string) {
 			if !validProof(authKeys(before.Document, msg.VerificationMethodId), &didtypes.DIDDocument{Id: did}, before.Sequence, msg.Signature) {
 				x.Flag("C03-deactivate-proof", "deactivation accepted without a valid proof")
 				x.Flag("C11-foreign-proof", "the entry under "+did+" was deactivated on a proof that no key registered under that DID made")
+				if s2, ok := otherSequence(authKeys(before.Document, msg.VerificationMethodId), &didtypes.DIDDocument{Id: did}, before.Sequence, msg.Signature); ok {
+					x.Flag("C04-proof-over-other-sequence", fmt.Sprintf("a deactivation of %s was accepted at sequence %d on a proof made over sequence %d", did, before.Sequence, s2))
+				}
 			}
 			cur[did] = didtypes.NewDIDDocumentWithSeq(&didtypes.DIDDocument{}, before.Sequence+1)
 			m.tombstoned[did] = true
